@@ -78,6 +78,7 @@ def run(ck, m):
     link_replies(ck, m)
     table_emits_once(ck, m)
     known_member_is_a_key_test(ck, m)
+    no_replication_inside_a_loop_of_an_arm(ck, m)
     # a candidacy is answered by a candidacy only from the strictly older side of ONE total order: the decision table of election_eval
     # (C07.a) — an order that the two nodes evaluate differently (different operands on the two sides) makes each answer the other for ever
     from nl import alias as _alias14
@@ -574,3 +575,34 @@ def known_member_is_a_key_test(ck, m):
               'the membership predicate answers from %s, not from the key test alone: a member that is in the map can count as unknown (its link '
               'is closed), so a `replicate-join` for a node that is down is acted on again by every node that already knows it — each failed '
               're-link closes the channel again and the secondaries keep sending the join to each other' % others, '%s:%s' % (b.file, b.line))
+
+
+def no_replication_inside_a_loop_of_an_arm(ck, m):
+    """C14.j — see RULES"""
+    from props.C07 import natural_loops
+    P = m.prog
+    ck.rule('C14.j', 'one client command puts a bounded number of messages on the replication stream: in the dispatcher (and the closures of its arms) '
+                     'no call that enqueues a replication message or forwards to the primary lies inside a loop — a handler that replicates one '
+                     'message per stored record (the resolved conflict records at an arbiter registration) causes a burst that grows with the data')
+    d, sw = m.dispatcher()
+    try:
+        fw = repl.forwarder(m).id
+    except core.AnchorError:
+        fw = None
+    fam = [d] + [P.bodies[k] for k in P.bodies if k.startswith(d.id + '::{closure')]
+    n, bad = 0, []
+    for b in fam:
+        loops = natural_loops(b)
+        for bi, t in b.calls():
+            c = callee(t)
+            if is_log(t) or P.bodies.get(c) is None:
+                continue
+            if not (c == fw or repl.sends_repl(m, c)):
+                continue
+            n += 1
+            if any(bi in body for _h, body in loops):
+                bad.append('%s called in a loop at %s' % (short(c), b.loc(bi)))
+    ck.ob('C14.j', 'dispatcher', 'no-replication-inside-a-loop', not bad,
+          'none of the %d replicating / forwarding calls of the dispatcher lies in a loop' % n if not bad else
+          'the dispatcher replicates inside a loop: %s' % sorted(set(bad))[:3], '%s:%s' % (d.file, d.line))
+    ck.floor('C14.j', n, 5, 'replicating / forwarding calls in the dispatcher')
